@@ -56,7 +56,35 @@ func Load(path string) (string, error) {
 		return "", err
 	}
 	rf, next, obsOut = &r, 0, nil
+	clockQ = nil
+	for _, d := range r.Draws {
+		if d.Kind == "Now" || d.Kind == "Mono" {
+			clockQ = append(clockQ, d)
+		}
+	}
 	return r.Harness, nil
+}
+
+// clockQ holds the clock readings chosen by the solver, in reading order; the
+// replay build injects them into time.Now / time.Since / time.Until for callers
+// inside the repository (clock_native.go).
+var clockQ []drawRec
+
+func nextClock(kind string) ([]uint64, bool) {
+	mu.Lock()
+	defer mu.Unlock()
+	if len(clockQ) == 0 || clockQ[0].Kind != kind {
+		return nil, false
+	}
+	d := clockQ[0]
+	clockQ = clockQ[1:]
+	out := make([]uint64, len(d.Vals))
+	for i, h := range d.Vals {
+		var b big.Int
+		b.SetString(h, 16)
+		out[i] = b.Uint64()
+	}
+	return out, true
 }
 
 // Observations returns what Observe recorded during the native run.
@@ -68,8 +96,8 @@ func draw(label, kind string, n int) []uint64 {
 	if rf == nil {
 		panic(Failure{"desync", "no replay file loaded (native run outside replay)"})
 	}
-	// clock readings chosen by the solver cannot be injected natively: skip them
-	for next < len(rf.Draws) && rf.Draws[next].Kind == "Now" {
+	// clock readings are consumed by the clock hooks, not by draws
+	for next < len(rf.Draws) && (rf.Draws[next].Kind == "Now" || rf.Draws[next].Kind == "Mono") {
 		next++
 	}
 	if next >= len(rf.Draws) {
